@@ -449,6 +449,8 @@ def run(chk):
     from lib import sectionend
     sectionend.run(chk)
     sectionend.run_identity(chk)
+    from lib import labelindex
+    labelindex.run(chk)
     return chk.finish(
         level="other",
         explanation=("Capture/replay coverage rules over BaseBuilder in /repo's current source: each node-creating override is replayed by "
